@@ -5,6 +5,7 @@
 package sym
 
 import (
+	"go/constant"
 	"fmt"
 	"go/token"
 	"go/types"
@@ -99,10 +100,59 @@ func (i *interpreter) global(g *ssa.Global) *value {
 	if g.Pkg != nil {
 		if f, ok := globalInits[g.Pkg.Pkg.Path()+"."+g.Name()]; ok {
 			cell = f(i)
+		} else if !i.initDone[g.Pkg] {
+			// A sentinel error (var ErrX = errors.New("...")) of a package whose
+			// init is not executed: nil would turn `err != nil` tests around, so
+			// the variable gets the value its initialiser gives it.
+			if msg, fn := i.prog.sentinelInit(g); fn != nil {
+				i.globals[g] = &cell
+				cell = call(i, nil, g.Pos(), fn, []value{msg})
+				return &cell
+			}
 		}
 	}
 	i.globals[g] = &cell
 	return &cell
+}
+
+type sentinelInfo struct {
+	msg string
+	fn  *ssa.Function
+}
+
+// sentinelInit: if the package initialiser assigns errors.New(<constant>)
+// to the error-typed global g, the message and errors.New.
+func (p *Program) sentinelInit(g *ssa.Global) (string, *ssa.Function) {
+	if v, ok := p.sentinels.Load(g); ok {
+		si := v.(sentinelInfo)
+		return si.msg, si.fn
+	}
+	var si sentinelInfo
+	if it, ok := deref(g.Type()).Underlying().(*types.Interface); ok && it.NumMethods() == 1 && it.Method(0).Name() == "Error" {
+		if init := g.Pkg.Func("init"); init != nil {
+			for _, b := range init.Blocks {
+				for _, ins := range b.Instrs {
+					st, ok := ins.(*ssa.Store)
+					if !ok || st.Addr != ssa.Value(g) {
+						continue
+					}
+					c, ok := st.Val.(*ssa.Call)
+					if !ok {
+						continue
+					}
+					callee := c.Call.StaticCallee()
+					if callee == nil || callee.Pkg == nil || callee.Pkg.Pkg.Path() != "errors" || callee.Name() != "New" || len(c.Call.Args) != 1 {
+						continue
+					}
+					if k, ok := c.Call.Args[0].(*ssa.Const); ok && k.Value != nil && k.Value.Kind() == constant.String {
+						si = sentinelInfo{constant.StringVal(k.Value), callee}
+					}
+				}
+			}
+		}
+	}
+	p.sentinels.Store(g, si)
+	return si.msg, si.fn
 }
 
 // globalInits: initial values of a few library globals whose package
